@@ -145,15 +145,16 @@ def parseScript (s : String) : Option (List Op) :=
     | _, _ => none) (some [])
 
 /-- render model events in the harness's format; `pend` = merged output not yet printed -/
+def flushW (pend : Bytes) : List String := if pend.isEmpty then [] else ["W" ++ hexRaw pend]
+
 def render : Bytes → List Ev → List String
-  | pend, [] => (if pend.isEmpty then [] else ["W" ++ hexRaw pend])
+  | pend, [] => flushW pend
   | pend, e :: r =>
-    let flush := if pend.isEmpty then [] else ["W" ++ hexRaw pend]
     match e with
     | .hello n => render (pend ++ [n.toUInt8]) r
     | .report d b => render (pend ++ [d.toUInt8] ++ b ++ [0]) r
-    | .openRead p => flush ++ ("o" ++ hex p) :: render [] r
-    | .spawnCall s sd rc a => flush ++ (s!"f{hexNat2 s}:{hex sd}:{hex rc}:{a}") :: render [] r
+    | .openRead p => flushW pend ++ ("o" ++ hex p) :: render [] r
+    | .spawnCall s sd rc a => flushW pend ++ (s!"f{hexNat2 s}:{hex sd}:{hex rc}:{a}") :: render [] r
 
 /-- the implementation's trace as events: each W is cut into reports (the first one starts with the hello byte) -/
 def parseTrace (toks : List String) : Option (List Ev × Bool) := do
@@ -239,27 +240,35 @@ def parseList {α : Type} (f : String → Option α) (s : String) : Option (List
     | some o, some l => some (o :: l)
     | _, _ => none) (some [])
 
-def render : Bytes → List Ev → List String
-  | pend, [] => if pend.isEmpty then [] else ["L" ++ hexRaw pend]
+/-- the pending (merged) log bytes as one `L` token; `pend` holds the log texts newest first -/
+def flushL (pend : List Bytes) : List String :=
+  if pend.isEmpty then [] else ["L" ++ hexRaw (pend.foldl (fun acc t => t ++ acc) [])]
+
+def render : List Bytes → List Ev → List String
+  | pend, [] => flushL pend
   | pend, e :: r =>
-    let flush := if pend.isEmpty then [] else ["L" ++ hexRaw pend]
     match e with
-    | .log t => render (pend ++ t) r
-    | .mark p pos b => flush ++ ("O" ++ hex p) :: s!"K{pos}" :: ("D" ++ hex b) :: render [] r
-    | .openWriteFail p => flush ++ ("O" ++ hex p) :: render [] r
-    | .stray => flush ++ "?" :: render [] r
-    | .openAppend p => flush ++ ("A" ++ hex p) :: render [] r
-    | .bounce t => flush ++ ("B" ++ hex t) :: render [] r
-    | .unlink p => flush ++ ("U" ++ hex p) :: render [] r
-    | .stat p => flush ++ ("T" ++ hex p) :: render [] r
-    | .pq w id dt => flush ++ (s!"Q{if w == 2 then "d" else toString w}:{id}:{dt}") :: render [] r
+    | .log t => render (t :: pend) r
+    | .mark p pos b => flushL pend ++ ("O" ++ hex p) :: s!"K{pos}" :: ("D" ++ hex b) :: render [] r
+    | .openWriteFail p => flushL pend ++ ("O" ++ hex p) :: render [] r
+    | .stray => flushL pend ++ "?" :: render [] r
+    | .openAppend p => flushL pend ++ ("A" ++ hex p) :: render [] r
+    | .bounce t => flushL pend ++ ("B" ++ hex t) :: render [] r
+    | .unlink p => flushL pend ++ ("U" ++ hex p) :: render [] r
+    | .stat p => flushL pend ++ ("T" ++ hex p) :: render [] r
+    | .pq w id dt => flushL pend ++ (s!"Q{if w == 2 then "d" else toString w}:{id}:{dt}") :: render [] r
 
 def renderFinal (st : St) : String :=
   let flags := if st.slots.isEmpty then "-" else String.ofList (st.slots.map (fun s => if s.isSome then '1' else '0'))
   let jobs := if st.jobs.isEmpty then "-" else ";".intercalate (st.jobs.map (fun j => s!"{j.refs}/{j.numtodo}"))
   s!"E{flags}:{usedCount st}:{st.dlen}:{jobs}"
 
-/-- the implementation's trace as events; `O p, K pos, D b` in a row is one `mark`, an `O` alone a failed
+/-- the log bytes (merged by the harness) cut into lines, each with its newline -/
+def logLines : Bytes → Bytes → List Bytes
+  | acc, [] => if acc.isEmpty then [] else [acc.reverse]
+  | acc, c :: r => if c == 10 then (c :: acc).reverse :: logLines [] r else logLines (c :: acc) r
+
+/-- the implementation's trace as events; an `L` is one `log` per line; `O p, K pos, D b` in a row is one `mark`, an `O` alone a failed
 open_write, any other `K`/`D` is `stray` -/
 partial def parseTrace : List String → Option (List Ev)
   | [] => some []
@@ -275,7 +284,7 @@ partial def parseTrace : List String → Option (List Ev)
             pure (.mark p pos b :: l)
         | _, _ => do let p ← unhex (String.ofList h); let l ← parseTrace rest; pure (.openWriteFail p :: l)
       | _ => do let p ← unhex (String.ofList h); let l ← parseTrace rest; pure (.openWriteFail p :: l)
-    | 'L' :: h => do let b ← unhex (String.ofList h); let l ← parseTrace rest; pure (.log b :: l)
+    | 'L' :: h => do let b ← unhex (String.ofList h); let l ← parseTrace rest; pure ((logLines [] b).map .log ++ l)
     | 'K' :: _ => do let l ← parseTrace rest; pure (.stray :: l)
     | 'D' :: _ => do let l ← parseTrace rest; pure (.stray :: l)
     | 'A' :: h => do let b ← unhex (String.ofList h); let l ← parseTrace rest; pure (.openAppend b :: l)
@@ -309,7 +318,10 @@ def handle (st : Stats) (cS jobsS slotsS planh chunk inh trace : String) : IO St
       let freed := inflightN - (flags.toList.filter (· == '1')).length
       let ok := Nq.Spec.TB.sendOK c jobs slots evs && Nq.Spec.TB.sendStrictDecl c jobs slots inp evs && Nq.Spec.TB.sendStrict c jobs slots inp evs && okFlags && (dlenS.toNat?.getD (Nq.Gen.REPORTMAX + 1)) ≤ Nq.Gen.REPORTMAX &&
                 (Nq.Spec.TB.marksOf evs).length ≤ freed
-      if !ok then
+      if !(Nq.Spec.TB.truncOK evs) then
+        let longest := (evs.filterMap (fun e => match e with | .log t => (Nq.Spec.TB.reportTextOf t).map (·.length - 1) | _ => none)).foldl max 0
+        st ← oracleFail st s!"kind=send in={inh} c={cS} jobs={jobsS} slots={slotsS} plan={planh} chunk={chunk} accepted_text={longest} textmax={Nq.Spec.TB.TEXTMAX} (oversized report not truncated) impl={trace.take 300}…"
+      else if !ok then
         st ← oracleFail st s!"kind=send in={inh} c={cS} jobs={jobsS} slots={slotsS} plan={planh} chunk={chunk} impl={trace}"
       else
         if !(Nq.Spec.TB.marksOf evs).isEmpty then st := st.bump "send_marked_done"
